@@ -97,6 +97,12 @@ func walkExtensions(w *walker, name string) {
 		et := int(l.b[l.p])<<8 | int(l.b[l.p+1])
 		l.skip(2)
 		e := l.vec(2, fmt.Sprintf("%s.ext%d", name, et))
+		hello := name == "ch" || name == "sh" || name == "hrr"
+		if hello {
+			walkHelloExtension(e, name, et)
+			l.merge(e)
+			continue
+		}
 		switch et {
 		case 16: // ALPN: ProtocolName protocol_name_list<2..2^16-1>, each opaque<1..2^8-1>
 			pl := e.vec(2, "alpn.list")
@@ -129,10 +135,111 @@ func walkExtensions(w *walker, name string) {
 	w.merge(l)
 }
 
+// walkHelloExtension: the inner vectors of the extensions of ClientHello ("ch"), ServerHello ("sh") and
+// HelloRetryRequest ("hrr") (RFC 8446 §4.2, RFC 6066 §3, RFC 7301, RFC 8422 §5.1).
+func walkHelloExtension(e *walker, ctx string, et int) {
+	if e.bad || e.done() {
+		return
+	}
+	switch et {
+	case 0: // server_name: ServerName list<1..2^16-1>, each name_type(1) HostName<1..2^16-1>
+		if ctx == "ch" {
+			nl := e.vec(2, "sni.list")
+			for !nl.done() {
+				nl.skip(1)
+				nl.vec(2, "sni.name")
+			}
+			e.merge(nl)
+		}
+	case 5: // status_request (ClientHello): status_type(1) responder_id_list<0..2^16-1> request_extensions<0..2^16-1>
+		if ctx == "ch" {
+			e.skip(1)
+			e.vec(2, "ocsp.responders")
+			e.vec(2, "ocsp.extensions")
+		}
+	case 10: // supported_groups: NamedGroup list<2..2^16-1>
+		e.vec(2, "groups.list")
+	case 11: // ec_point_formats: ECPointFormat list<1..2^8-1>
+		e.vec(1, "pointformats.list")
+	case 13, 50: // signature_algorithms(_cert)
+		e.vec(2, "sigalgs.list")
+	case 16: // ALPN
+		pl := e.vec(2, "alpn.list")
+		for !pl.done() {
+			pl.vec(1, "alpn.name")
+		}
+		e.merge(pl)
+	case 41: // pre_shared_key: ClientHello identities<7..2^16-1> {identity<1..2^16-1> age(4)} binders<33..2^16-1> {binder<32..255>}; ServerHello selected_identity(2)
+		if ctx == "ch" {
+			il := e.vec(2, "psk.identities")
+			for !il.done() {
+				il.vec(2, "psk.identity")
+				il.skip(4)
+			}
+			e.merge(il)
+			bl := e.vec(2, "psk.binders")
+			for !bl.done() {
+				bl.vec(1, "psk.binder")
+			}
+			e.merge(bl)
+		}
+	case 43: // supported_versions: ClientHello versions<2..254>; ServerHello / HelloRetryRequest selected_version(2)
+		if ctx == "ch" {
+			e.vec(1, "versions.list")
+		}
+	case 44: // cookie<1..2^16-1>
+		e.vec(2, "cookie")
+	case 45: // psk_key_exchange_modes: ke_modes<1..255>
+		e.vec(1, "pskmodes.list")
+	case 51: // key_share: ClientHello client_shares<0..2^16-1> {group(2) key_exchange<1..2^16-1>}; ServerHello group(2) key_exchange<1..2^16-1>; HelloRetryRequest selected_group(2)
+		switch ctx {
+		case "ch":
+			sl := e.vec(2, "keyshare.client_shares")
+			for !sl.done() {
+				sl.skip(2)
+				sl.vec(2, "keyshare.key_exchange")
+			}
+			e.merge(sl)
+		case "sh":
+			e.skip(2)
+			e.vec(2, "keyshare.key_exchange")
+		}
+	case 65281: // renegotiation_info: renegotiated_connection<0..255>
+		e.vec(1, "reneg.info")
+	}
+}
+
+// hrrRandom is SHA-256("HelloRetryRequest"), the ServerHello.random that marks a HelloRetryRequest (RFC 8446 §4.1.3).
+var hrrRandom = []byte{0xCF, 0x21, 0xAD, 0x74, 0xE5, 0x9A, 0x61, 0x11, 0xBE, 0x1D, 0x8C, 0x02, 0x1E, 0x65, 0xB8, 0x91,
+	0xC2, 0xA2, 0x11, 0x16, 0x7A, 0xBB, 0x8C, 0x5E, 0x07, 0x9E, 0x09, 0xE2, 0xC8, 0xA8, 0x33, 0x9C}
+
+func isHRR(mt byte, body []byte) bool {
+	return mt == 2 && len(body) >= 34 && string(body[2:34]) == string(hrrRandom)
+}
+
 // lengthFields lists the length prefixes of a handshake message body.
 func lengthFields(tls13 bool, mt byte, body []byte) []lenField {
 	w := &walker{b: body}
 	switch {
+	case mt == 1: // ClientHello: version(2) random(32) session_id<0..32> cipher_suites<2..2^16-2> compression_methods<1..2^8-1> extensions
+		w.skip(34)
+		w.vec(1, "ch.session_id")
+		w.vec(2, "ch.cipher_suites")
+		w.vec(1, "ch.compression_methods")
+		if !w.done() {
+			walkExtensions(w, "ch")
+		}
+	case mt == 2: // ServerHello / HelloRetryRequest: version(2) random(32) session_id<0..32> cipher_suite(2) compression_method(1) extensions
+		name := "sh"
+		if isHRR(mt, body) {
+			name = "hrr"
+		}
+		w.skip(34)
+		w.vec(1, name+".session_id")
+		w.skip(3)
+		if !w.done() {
+			walkExtensions(w, name)
+		}
 	case tls13 && mt == 8: // EncryptedExtensions
 		walkExtensions(w, "ee")
 	case tls13 && mt == 13: // CertificateRequest: opaque context<0..255>, extensions
